@@ -26,7 +26,7 @@ ok = confirmed["demo_without_patch"] == "pass" and confirmed["demo_with_patch"] 
 print("confirmed:", confirmed, "OK" if ok else "REJECTED")
 if not ok:
     sys.exit(1)
-r = subprocess.run(["/verif/seedtest.py", "%s/deliver/patch%s.diff" % (W, N)] + props, text=True, stdout=subprocess.PIPE, stderr=subprocess.STDOUT)
+r = subprocess.run([os.environ.get("SEEDTEST", "/verif/seedtest.py"), "%s/deliver/patch%s.diff" % (W, N)] + props, text=True, stdout=subprocess.PIPE, stderr=subprocess.STDOUT)
 print(r.stdout[-1500:])
 res = json.loads(r.stdout.strip().splitlines()[-1])
 d = "/verif/seeded/%s-%s%s" % (ID, TAG, N)
